@@ -697,7 +697,7 @@ impl Property for C14 {
                 }
             }
         }
-        let (n_text, n_syn) = if ctx.thorough { (60_000, 250_000) } else { (5_000, 20_000) };
+        let (n_text, n_syn) = if ctx.thorough { (200_000, 1_000_000) } else { (15_000, 60_000) };
         let mut r1 = rng.fork();
         for _ in 0..n_text {
             v.push(gen_text_case(&mut r1));
@@ -794,6 +794,26 @@ impl Property for C14 {
             let r: Vec<usize> = hy.hyphenator.calculate_indices(&lc, s).collect();
             raws.push(r.len() as i64);
             raws.extend(r.iter().map(|&x| x as i64));
+        }
+
+        // tie to C13: with a small pattern set the driver computes Liang's positions itself
+        if let Some(rest) = c.hyph.strip_prefix("H:") {
+            if let Some((pats, excs)) = rest.split_once(':') {
+                for (_, _, _, s) in &words {
+                    let real: Vec<usize> = hy.hyphenator.calculate_indices(&lc, s).collect();
+                    let real = if real.is_empty() { "_".to_string() } else { real.iter().map(|x| x.to_string()).collect::<Vec<_>>().join(".") };
+                    let want = drv.ask(&format!("li {pats} {excs} {s}"));
+                    out.tag("c13-spec-compared");
+                    if want != real {
+                        out.fail(
+                            Kind::ImplVsSpec,
+                            "liang",
+                            "raw positions differ from C13.specIndices",
+                            format!("word {s}: hyphenate crate gives {real}, C13.specIndices gives {want}"),
+                        );
+                    }
+                }
+            }
         }
 
         // I: the real pass
